@@ -146,21 +146,21 @@ Proof.
   destruct Hs as [Hx Hs]. destruct i as [|i], j as [|j]; cbn in *; try lia.
   - inversion Ha; inversion Hb; subst. lia.
   - inversion Ha; subst. apply Hx. eapply nth_error_In; eauto.
-  - eapply IH; eauto. lia.
+  - apply (IH i j a b Hs); [lia|exact Ha|exact Hb].
 Qed.
 
 Lemma nth_error_in_skipn : forall (l : list item) e p y, nth_error l p = Some y -> (e <= p)%nat -> In y (skipn e l).
 Proof.
   induction l as [|x r IH]; intros e p y H He; [destruct p; discriminate|].
-  destruct e as [|e]; [cbn; eapply nth_error_In; eauto|].
-  destruct p as [|p]; [lia|]. cbn in *. eapply IH; eauto. lia.
+  destruct e as [|e]; [cbn [skipn]; eapply nth_error_In; exact H|].
+  destruct p as [|p]; [lia|]. cbn in *. apply (IH e p y H). lia.
 Qed.
 
 Lemma nth_error_in_firstn : forall (l : list item) e p y, nth_error l p = Some y -> (p < e)%nat -> In y (firstn e l).
 Proof.
   induction l as [|x r IH]; intros e p y H He; [destruct p; discriminate|].
   destruct e as [|e]; [lia|]. destruct p as [|p]; cbn in *; [inversion H; auto|].
-  right. eapply IH; eauto. lia.
+  right. apply (IH e p y H). lia.
 Qed.
 
 Lemma ub_hit : forall l k, sorted l -> has_key l k = true ->
@@ -171,12 +171,13 @@ Proof.
   assert (Hpe : (p < ub l k)%nat).
   { destruct (Nat.lt_ge_cases p (ub l k)) as [H|H]; [exact H|].
     pose proof (ub_after l k y Hs (nth_error_in_skipn _ _ _ _ Hp H)). lia. }
-  split; [lia|].
-  pose proof (ub_le l k) as Hle.
-  destruct (nth_error l (pred (ub l k))) as [x|] eqn:Ex.
+  pose proof (ub_le l k) as Hle. pose proof (ub_before l k) as Hb.
+  destruct (ub l k) as [|e]; [lia|]. split; [lia|]. cbn [pred].
+  destruct (nth_error l e) as [x|] eqn:Ex.
   - exists x. split; auto.
-    pose proof (ub_before l k x (nth_error_in_firstn _ _ _ _ Ex ltac:(lia))).
-    pose proof (sorted_nth l p (pred (ub l k)) y x Hs ltac:(lia) Hp Ex). lia.
+    pose proof (Hb x (nth_error_in_firstn _ (S e) e _ Ex (Nat.lt_succ_diag_r e))).
+    assert (Hpe' : (p <= e)%nat) by lia.
+    pose proof (sorted_nth l p e y x Hs Hpe' Hp Ex). lia.
   - apply nth_error_None in Ex. lia.
 Qed.
 
@@ -189,7 +190,7 @@ Qed.
 
 (* ------------------------------------------------------------------ invariant *)
 Definition ids_ok (l : list item) (nx : N) : Prop :=
-  NoDup (map iid l) /\ forall x, In x l -> (0 < iid x < nx)%N.
+  NoDup (map iid l) /\ (0 < nx)%N /\ forall x, In x l -> (0 < iid x < nx)%N.
 
 Record Inv (u : bool) (s : omap) : Prop := mkInv {
   inv_sorted : sorted (items s);
@@ -201,7 +202,7 @@ Record Inv (u : bool) (s : omap) : Prop := mkInv {
 Lemma Inv_empty : forall u, Inv u empty_omap.
 Proof.
   intros u. constructor; cbn; auto.
-  - split; [constructor|intros ? []].
+  - split; [constructor|split; [reflexivity|intros ? []]].
   - intros _. constructor.
   - discriminate.
 Qed.
@@ -216,34 +217,6 @@ Proof.
   - intros a b Ha' [<-|Hb']; [|auto]. apply lb_before in Ha'. lia.
 Qed.
 
-Lemma sorted_remove_at : forall n l, sorted l -> sorted (remove_at n l).
-Proof.
-  intros n l Hs. rewrite remove_at_split.
-  rewrite (split_at l n) in Hs. apply sorted_app in Hs as [Ha [Hb Hab]].
-  apply sorted_app. split; [exact Ha|].
-  assert (Hsub : forall y, In y (skipn (S n) l) -> In y (skipn n l)).
-  { intros y Hy. clear -Hy. revert l Hy. induction n as [|n IH]; intros [|z r] Hy; cbn in *; auto.
-    destruct r; cbn in *; auto. }
-  split.
-  - clear -Hb. revert l Hb. induction n as [|n IH]; intros [|z r] Hb; cbn in *; auto.
-    + tauto.
-    + destruct r; cbn; auto. apply (IH (i :: r)). exact Hb.
-  - intros a b Ha' Hb'. auto.
-Qed.
-
-Lemma sorted_set_at : forall n x y l, sorted l -> nth_error l n = Some y -> ikey x = ikey y ->
-  sorted (set_at n x l).
-Proof.
-  intros n x y l Hs Hn Hk.
-  assert (Hlt : (n < length l)%nat) by (apply nth_error_Some; congruence).
-  rewrite set_at_split by exact Hlt.
-  rewrite (nth_split_at l n y Hn) in Hs.
-  apply sorted_app in Hs as [Ha [Hb Hab]]. destruct Hb as [Hy Hb].
-  apply sorted_app. split; [exact Ha|]. split.
-  - cbn. split; [|exact Hb]. intros z Hz. rewrite Hk. auto.
-  - intros a b Ha' [<-|Hb']; [rewrite Hk; apply Hab; cbn; auto|apply Hab; cbn; auto].
-Qed.
-
 Lemma In_insert_at : forall n x l y, In y (insert_at n x l) <-> y = x \/ In y l.
 Proof.
   induction n as [|n IH]; intros x l y; [cbn; intuition|].
@@ -255,6 +228,31 @@ Proof.
   induction n as [|n IH]; intros [|z r] y H; cbn in *; auto. destruct H; eauto.
 Qed.
 
+Lemma In_set_at : forall n x l z, In z (set_at n x l) -> z = x \/ In z l.
+Proof.
+  induction n as [|n IH]; intros x [|y r] z H; cbn in *; auto.
+  - destruct H; auto.
+  - destruct H; auto. apply IH in H. tauto.
+Qed.
+
+Lemma sorted_remove_at : forall n l, sorted l -> sorted (remove_at n l).
+Proof.
+  induction n as [|n IH]; intros [|z r] Hs; cbn; auto.
+  - destruct Hs; auto.
+  - destruct Hs as [Hz Hs]. split; [|apply IH; auto].
+    intros y Hy. apply Hz. eapply In_remove_at; eauto.
+Qed.
+
+Lemma sorted_set_at : forall n x y l, sorted l -> nth_error l n = Some y -> ikey x = ikey y ->
+  sorted (set_at n x l).
+Proof.
+  induction n as [|n IH]; intros x y [|z r] Hs Hn Hk; cbn in *; try discriminate.
+  - inversion Hn; subst. destruct Hs as [Hy Hs]. split; auto. intros w Hw. rewrite Hk. auto.
+  - destruct Hs as [Hz Hs]. split; [|eapply IH; eauto].
+    intros w Hw. apply In_set_at in Hw as [->|Hw]; [|auto].
+    rewrite Hk. apply Hz. eapply nth_error_In; eauto.
+Qed.
+
 Lemma map_insert_at : forall {B} (f : item -> B) n x l,
   map f (insert_at n x l) = firstn n (map f l) ++ f x :: skipn n (map f l) \/ (length l < n)%nat.
 Proof.
@@ -262,29 +260,30 @@ Proof.
   rewrite insert_at_split by exact H. rewrite map_app. cbn. rewrite firstn_map, skipn_map. reflexivity.
 Qed.
 
+Lemma NoDup_mid : forall {B} (a b : list B) v, NoDup (a ++ b) -> ~ In v (a ++ b) -> NoDup (a ++ v :: b).
+Proof.
+  induction a as [|x a IH]; intros b v Hnd Hv; cbn in *.
+  - constructor; auto.
+  - inversion Hnd as [|? ? Hx Hnd']; subst. constructor.
+    + intros Hin. apply in_app_or in Hin as [Hin|[Hin|Hin]].
+      * apply Hx, in_or_app; auto.
+      * subst. apply Hv; auto.
+      * apply Hx, in_or_app; auto.
+    + apply IH; auto.
+Qed.
+
 Lemma NoDup_insert : forall {B} (l : list B) n v, NoDup l -> ~ In v l -> NoDup (firstn n l ++ v :: skipn n l).
 Proof.
-  intros B l n v Hnd Hv. rewrite <- (firstn_skipn n l) in Hnd, Hv.
-  apply NoDup_app_remove_l in Hnd as Hb.
-  apply NoDup_remove_inv. cbn.
-  assert (NoDup (v :: firstn n l ++ skipn n l)) by (constructor; auto).
-  apply NoDup_Add with (a := v) (l := firstn n l ++ skipn n l); [|split; auto].
-  apply Add_app.
+  intros B l n v Hnd Hv. apply NoDup_mid; rewrite firstn_skipn; auto.
 Qed.
 
 Lemma NoDup_map_remove_at : forall {B} (f : item -> B) n l, NoDup (map f l) -> NoDup (map f (remove_at n l)).
 Proof.
-  intros B f n l H. rewrite remove_at_split, map_app.
-  rewrite <- (firstn_skipn n l), map_app in H.
-  assert (Hs : skipn n l = skipn n l) by reflexivity.
-  destruct (skipn n l) as [|z r] eqn:E.
-  - assert (skipn (S n) l = []) as ->.
-    { apply skipn_all2. assert (length (skipn n l) = 0%nat) by (rewrite E; reflexivity).
-      rewrite skipn_length in H0. lia. }
-    cbn in *. rewrite app_nil_r in *. exact H.
-  - assert (skipn (S n) l = r) as ->.
-    { change (S n) with (1 + n)%nat. rewrite <- skipn_skipn, E. reflexivity. }
-    cbn in H. apply NoDup_remove_1 in H. exact H.
+  intros B f. induction n as [|n IH]; intros [|z r] H; cbn in *; auto.
+  - inversion H; auto.
+  - inversion H as [|? ? Hz Hr]; subst. constructor; [|apply IH; auto].
+    intros Hin. apply Hz. apply in_map_iff in Hin as [y [Hy1 Hy2]].
+    apply in_map_iff. exists y. split; auto. eapply In_remove_at; eauto.
 Qed.
 
 Lemma map_set_at_same : forall {B} (f : item -> B) n x y l,
@@ -293,13 +292,6 @@ Proof.
   intros B f n. induction n as [|n IH]; intros x y [|z r] Hn Hf; cbn in *; try discriminate.
   - inversion Hn; subst. rewrite Hf. reflexivity.
   - f_equal. eapply IH; eauto.
-Qed.
-
-Lemma In_set_at : forall n x l z, In z (set_at n x l) -> z = x \/ In z l.
-Proof.
-  induction n as [|n IH]; intros x [|y r] z H; cbn in *; auto.
-  - destruct H; auto.
-  - destruct H; auto. apply IH in H. tauto.
 Qed.
 
 (* index_of finds the position of an id *)
@@ -403,10 +395,10 @@ Proof.
   - set (x := mkItem (next_iid s) k v) in *.
     destruct (resolve (insert_at (lb (items s) k) x (items s)) h) as [c|] eqn:E2; [|discriminate].
     destruct (havoc_ok (cur s) c); [|discriminate]. inversion H; subst. clear H.
-    destruct HI as [Hs [Hnd Hid] Hu Hc].
+    destruct HI as [Hs [Hnd [Hpos Hid]] Hu Hc].
     constructor; cbn.
     + apply sorted_insert_lb; auto.
-    + split.
+    + split; [|split; [lia|]].
       * destruct (map_insert_at iid (lb (items s) k) x (items s)) as [->|Hbad]; [|pose proof (lb_le (items s) k); lia].
         apply NoDup_insert; auto. cbn. intros Hin. apply in_map_iff in Hin as [y [Hy1 Hy2]].
         specialize (Hid y Hy2). lia.
@@ -428,11 +420,11 @@ Proof.
   destruct v as [v'|]; [|inversion H; subst; auto].
   inversion H; subst. clear H.
   assert (Hk : k = ikey x) by lia. subst k.
-  destruct HI as [Hs [Hnd Hid] Hu Hc].
+  destruct HI as [Hs [Hnd [Hpos Hid]] Hu Hc].
   split.
   - constructor; cbn.
     + eapply sorted_set_at; eauto.
-    + split.
+    + split; [|split; [exact Hpos|]].
       * erewrite map_set_at_same; eauto.
       * intros y Hy. apply In_set_at in Hy as [->|Hy]; [|auto]. cbn. apply Hid. eapply nth_error_In; eauto.
     + intros Hu'. erewrite map_set_at_same; eauto.
@@ -447,11 +439,11 @@ Proof.
   destruct (cur s) as [|i|] eqn:Ec; try (inversion H; subst; auto; fail).
   destruct (nth_error (items s) i) as [x|] eqn:En; [|inversion H; subst; auto].
   inversion H; subst. clear H.
-  destruct HI as [Hs [Hnd Hid] Hu Hc].
+  destruct HI as [Hs [Hnd [Hpos Hid]] Hu Hc].
   split.
   - constructor; cbn.
     + eapply sorted_set_at; eauto.
-    + split.
+    + split; [|split; [exact Hpos|]].
       * erewrite map_set_at_same; eauto.
       * intros y Hy. apply In_set_at in Hy as [->|Hy]; [|auto]. cbn. apply Hid. eapply nth_error_In; eauto.
     + intros Hu'. erewrite map_set_at_same; eauto.
@@ -465,10 +457,10 @@ Proof.
   destruct (cur s) as [|i|] eqn:Ec; try (inversion H; subst; auto; fail).
   destruct (Nat.ltb i (length (items s))); [|inversion H; subst; auto].
   inversion H; subst. clear H.
-  destruct HI as [Hs [Hnd Hid] Hu Hc].
+  destruct HI as [Hs [Hnd [Hpos Hid]] Hu Hc].
   constructor; cbn.
   - apply sorted_remove_at; auto.
-  - split; [apply NoDup_map_remove_at; auto|]. intros y Hy. apply In_remove_at in Hy. auto.
+  - split; [apply NoDup_map_remove_at; auto|split; [exact Hpos|]]. intros y Hy. apply In_remove_at in Hy. auto.
   - intros Hu'. apply NoDup_map_remove_at; auto.
   - discriminate.
 Qed.
@@ -562,15 +554,15 @@ Theorem ostep_inv : forall u s o h s' r, Inv u s -> ostep u s o h = Some (s', r)
 Proof.
   intros u s o h s' r HI H. destruct o; cbn [ostep] in H.
   - (* add *) destruct (do_add u s k v (h_cur h)) as [[s1 b]|] eqn:E; [|discriminate]. inversion H; subst.
-    eapply do_add_inv; eauto.
+    eapply (do_add_inv u _ s k v _ _ _ HI); [|exact E]; auto.
   - destruct (do_add true s k v (h_cur h)) as [[s1 b]|] eqn:E; [|discriminate]. inversion H; subst.
-    eapply do_add_inv; eauto.
+    eapply (do_add_inv u _ s k v _ _ _ HI); [|exact E]; auto.
   - (* upsert *) destruct (has_key (items s) k) eqn:Hh.
     + destruct (hint_on_key (items s) (h_cur h) k) eqn:E; [|discriminate].
       unfold lift in H. inversion H as [H1]. apply update_current_inv with (u := u) in H1; [tauto|].
       apply Inv_set_cur; auto. intros i Hi. inversion Hi; subst. apply hint_on_key_spec in E. tauto.
     + destruct (do_add true s k v (h_cur h)) as [[s1 b]|] eqn:E; [|discriminate]. inversion H; subst.
-      eapply do_add_inv; eauto.
+      eapply (do_add_inv u _ s k v _ _ _ HI); [|exact E]; auto.
   - (* update *) destruct (find_any s k (h_cur h)) as [[s1 [|]]|] eqn:E; try discriminate.
     + apply find_any_inv with (u := u) in E as [HI1 _]; auto. unfold lift in H. inversion H as [H1].
       apply update_current_inv with (u := u) in H1; tauto.
